@@ -89,7 +89,11 @@ func deepJSON(n int) string { return strings.Repeat("[", n) + strings.Repeat("]"
 
 // CheckC14: the generated server never panics and always answers.
 func CheckC14(p *Pkg, e *Env, r *res.Result) {
-	in := FullInst(p)
+	full := FullInst(p)
+	// the same API with every optional hook left nil (no CORS / spec / not-found handler,
+	// no authenticators, no middlewares): optional means the server copes without them
+	silenceLogError(p)
+	bare := NewInst(p)
 	if len(p.Ops) == 0 {
 		return
 	}
@@ -100,6 +104,11 @@ func CheckC14(p *Pkg, e *Env, r *res.Result) {
 	methods := []string{"GET", "POST", "PUT", "PATCH", "DELETE", "HEAD", "OPTIONS", "TRACE", "CONNECT", "FOO", "get", "PROPFIND", ""}
 	var lastFail *res.Failure
 	prop := func(t *rapid.T) {
+		in := full
+		if rapid.IntRange(0, 3).Draw(t, "bare_api") == 0 {
+			in = bare
+			r.Label("api:optional-hooks-nil")
+		}
 		op := p.Ops[rapid.IntRange(0, len(p.Ops)-1).Draw(t, "op")]
 		decls, _ := OpParams(op)
 		// path: start from the concrete template and mutate
